@@ -1051,7 +1051,8 @@ class USBDataPacketDeserializer(Elaboratable):
                         for i in range(self._max_packet_size):
                             m.d.usb += self.packet[i].eq(active_packet[i]),
 
-                        m.next = "IDLE"
+                    # Whether or not the packet was valid, it's over; wait for the next one.
+                    m.next = "IDLE"
 
             # IRRELEVANT -- we've encountered a malformed or non-handshake packet
             with m.State("IRRELEVANT"):
